@@ -152,10 +152,11 @@ var styType = map[string]reflect.Type{
 // ---- host objects ----
 
 type Sub struct {
-	N  int64
-	F  float64
-	S  string
-	U8 uint8
+	N   int64
+	F   float64
+	S   string
+	U8  uint8
+	rec *recorder
 }
 
 type Host struct {
@@ -202,7 +203,7 @@ func (h *Host) Id64(x int64) int64     { h.rec.add("Id64", x); return x }
 func (h *Host) IdU8(x uint8) uint8     { h.rec.add("IdU8", x); return x }
 func (h *Host) IdF64(x float64) float64 { h.rec.add("IdF64", x); return x }
 func (h *Host) Boom()                  { panic("Host.Boom") }
-func (s *Sub) GetN(k int32) int32      { return k }
+func (s *Sub) GetN(k int32) int32      { s.rec.add("GetN", k); return k }
 
 // the function catalogue, injected by name
 func catalogue(rec *recorder) map[string]interface{} {
@@ -299,8 +300,9 @@ func buildInj(d injDesc, rec *recorder) (*built, error) {
 		if err := setFields(reflect.ValueOf(&h.Sub).Elem(), d.Sub); err != nil {
 			return nil, err
 		}
+		h.Sub.rec = rec
 		if d.PSub != nil {
-			h.PSub = &Sub{}
+			h.PSub = &Sub{rec: rec}
 			if err := setFields(reflect.ValueOf(h.PSub).Elem(), d.PSub); err != nil {
 				return nil, err
 			}
